@@ -299,6 +299,8 @@ Definition parse_amount (ps : pstate) : option amount * pstate :=
     match new_from_string numberStr with
     | None => (None, perr ps)
     | Some q =>
+        (* maxNumberExponent: quantities whose decimal exponent is beyond +-255 are refused *)
+        if (255 <? dexp q)%Z || (dexp q <? -255)%Z then (None, perr ps) else
         let ps := adv ps in
         let '(com, ps) :=
           match c_sym com with
